@@ -93,8 +93,9 @@ var expandableFloor = []string{
 }
 
 func checkC16(c *Ctx, r *Report) {
-	r.Rules = []string{"O7 decoder typestate (KnownFields(true) dominates the only Decode)", "O7 single parse path", "O7 no custom unmarshaler / free-form field", "F15 documented-expandable keys are expanded with the caller's mapping", "F15 scalar expansion is os.Expand only; lists via the trim-and-drop helper", "F15 every os.Expand uses the caller's mapping", "contents expanded only on the expand:true edge", "passphrase precedence"}
+	r.Rules = []string{"O7 decoder typestate (KnownFields(true) dominates the only Decode)", "O7 single parse path", "O7 no custom unmarshaler / free-form field", "F15 documented-expandable keys are expanded with the caller's mapping", "F15 scalar expansion is os.Expand only; lists via the trim-and-drop helper", "F15 every os.Expand uses the caller's mapping", "contents expanded only on the expand:true edge", "passphrase precedence", "F15-contents the value written back is TrimSpace(Expand(same field)) only"}
 	r.Explanation = "Typestate and coverage rules over go/ssa, go/types and the repository's reference documentation. (O7) The only decode of a value containing nfpm.Config in non-test module code runs on a yaml.v3 decoder on which KnownFields(true) — constant true — is called on a dominating path; Parse, ParseFile and ParseFileWithEnvMapping all route through it; no module type reachable from Config declares UnmarshalYAML/UnmarshalText or has an interface/yaml.Node field, and the only maps are the documented ones. (F15) The key paths that www/docs/configuration.md documents as expanding environment variables are read from the commented reference YAML, mapped to Go fields through the yaml struct tags, and each must be assigned in the expansion function from os.Expand applied to the same field with the configuration's mapping function: scalars through os.Expand alone (so a value without '$' is unchanged), lists through the helper whose loop trims and drops empty items; every os.Expand in the module takes the mapping field (or expands a constant variable name); content source/destination stores are live only when the entry's expand flag is true (abstract evaluation); each format's passphrase is first the general variable and then, guarded by non-emptiness, the format-specific one."
+	r.Explanation += " The value stored into a content entry's source/destination is strings.TrimSpace(os.Expand(<same field>)) (directly or through a module helper that is exactly that chain) - no further rewriting step."
 	r.Assumptions = []string{
 		"yaml.v3 Decoder.KnownFields(true) rejects unknown keys at every nesting level of struct-typed targets",
 		"os.Expand leaves a string without '$' unchanged",
@@ -552,6 +553,66 @@ func checkF15(c *Ctx, r *Report) {
 			r.Check(joinSorted(stored) == want, "F15-contents", fmt.Sprintf("content expansion[expand=%v]", flag), c.pos(contentsFn.Pos()),
 				fmt.Sprintf("fields of a content entry rewritten: {%s}, expected {%s}", joinSorted(stored), want))
 		}
+	}
+
+	// the value written back is the (trimmed) expansion of the same field and
+	// nothing else: a further rewriting step (path cleaning, case folding)
+	// also changes values that contain no reference
+	if contentsFn != nil {
+		k := 0
+		forEachInstr(contentsFn, func(in ssa.Instruction) {
+			st, ok := in.(*ssa.Store)
+			if !ok {
+				return
+			}
+			fa, ok := st.Addr.(*ssa.FieldAddr)
+			if !ok || !isContentPtr(fa.X.Type()) {
+				return
+			}
+			field := fieldName(fa.X.Type(), fa.Field)
+			k++
+			v := st.Val
+			var extra []string
+			expanded, self := false, false
+			for d := 0; d < 8; d++ {
+				call, isCall := v.(*ssa.Call)
+				if !isCall {
+					break
+				}
+				switch {
+				case calleeIs(call, "strings", "", "TrimSpace"):
+				case calleeIs(call, "os", "", "Expand"):
+					expanded = true
+				case expandChainHelper(c, call.Call.StaticCallee()) >= 0:
+					// a module helper that returns the (trimmed) expansion of one of its parameters
+					expanded = true
+					sc := call.Call.StaticCallee()
+					idx := expandChainHelper(c, sc)
+					if sc.Signature.Recv() != nil {
+						// Args include the receiver, as do Params
+					}
+					v = call.Call.Args[idx]
+					continue
+				default:
+					name := "a dynamic call"
+					if o := calleeObj(call); o != nil {
+						name = qualifiedName(o)
+					}
+					extra = append(extra, name)
+				}
+				if len(call.Call.Args) == 0 {
+					break
+				}
+				v = call.Call.Args[0]
+			}
+			if ld, isLd := v.(*ssa.UnOp); isLd && ld.Op == token.MUL {
+				if fa2, isFA := ld.X.(*ssa.FieldAddr); isFA && isContentPtr(fa2.X.Type()) && fieldName(fa2.X.Type(), fa2.Field) == field {
+					self = true
+				}
+			}
+			r.Check(expanded && self && len(extra) == 0, "F15-contents", fmt.Sprintf("content expansion: value written to %s#%d", field, k), c.instrPos(st),
+				fmt.Sprintf("expected strings.TrimSpace(os.Expand(<the same field>, mapping)); expanded=%v same-field=%v extra transformations=%v: a value without any reference must come out as written", expanded, self, extra))
+		})
 	}
 
 	// passphrases
@@ -1083,4 +1144,49 @@ func checkDefaultMapping(c *Ctx, r *Report) {
 		}
 	}
 	r.Floor("F15-default-mapping", n, 2)
+}
+
+// expandChainHelper: fn returns, on every return, strings.TrimSpace / os.Expand
+// applied (in any nesting, at least one Expand) to one and the same parameter;
+// the index of that parameter, or -1.
+func expandChainHelper(c *Ctx, fn *ssa.Function) int {
+	if fn == nil || len(fn.Blocks) == 0 || !c.isModuleFunc(fn) || fn.Signature.Results().Len() != 1 {
+		return -1
+	}
+	idx := -1
+	for _, b := range fn.Blocks {
+		ret, ok := b.Instrs[len(b.Instrs)-1].(*ssa.Return)
+		if !ok {
+			continue
+		}
+		v := ret.Results[0]
+		expanded := false
+		for d := 0; d < 6; d++ {
+			call, isCall := v.(*ssa.Call)
+			if !isCall {
+				break
+			}
+			switch {
+			case calleeIs(call, "strings", "", "TrimSpace"):
+			case calleeIs(call, "os", "", "Expand"):
+				expanded = true
+			default:
+				return -1
+			}
+			v = call.Call.Args[0]
+		}
+		prm, isPrm := v.(*ssa.Parameter)
+		if !isPrm || !expanded {
+			return -1
+		}
+		for i, q := range fn.Params {
+			if q == prm {
+				if idx >= 0 && idx != i {
+					return -1
+				}
+				idx = i
+			}
+		}
+	}
+	return idx
 }
